@@ -10,6 +10,8 @@ CONSTANTS
   Reverse = FALSE
   CellNs = {0, 32767, 32768, 65535, 65541, 1000001}
   CellRead = "unsigned"
+  FreshNs = {0, 7}
+  KeepFresh = FALSE
 INVARIANTS
   SameType
   CarriedRestored
